@@ -11,7 +11,7 @@ use helgoboss_midi::{ParameterNumberMessage, PollingParameterNumberMessageScanne
 use proptest::prelude::*;
 use serde_json::{json, Value};
 
-pub const TIMEOUTS: [u64; 5] = [0, 1, 1_000_000, 10_000_000_000, u64::MAX];
+pub const TIMEOUTS: [u64; 7] = [0, 1, 1_000_000, 10_000_000_000, u64::MAX, u64::MAX - 1, u64::MAX - 2];
 
 /// clock epochs used by the history checks (0, 1 ns, ~11.5 days); only elapsed time may matter
 pub fn clock_start(h: u64) -> u64 {
@@ -19,7 +19,7 @@ pub fn clock_start(h: u64) -> u64 {
 }
 
 pub fn timeout_opt(ns: u64) -> Option<u64> {
-    if ns == u64::MAX { None } else { Some(ns) }
+    if is_infinite(ns) { None } else { Some(ns) }
 }
 
 pub fn new_scanner(timeout_ns: u64) -> PollingParameterNumberMessageScanner {
@@ -155,7 +155,7 @@ pub fn poll_case_timeout(c: &PollCase) -> u64 {
     if HAVE_CLOCK {
         TIMEOUTS[c.timeout_idx as usize % TIMEOUTS.len()]
     } else {
-        [0, u64::MAX][c.timeout_idx as usize % 2]
+        [0, u64::MAX, u64::MAX - 1][c.timeout_idx as usize % 3]
     }
 }
 
@@ -163,15 +163,25 @@ pub fn poll_case_ops(c: &PollCase) -> Vec<Op> {
     concretize(Kind::Polling, &c.hist, poll_case_timeout(c))
 }
 
+pub fn timeout_json(timeout_ns: u64) -> Value {
+    match timeout_ns {
+        T_MAX => json!("max"),
+        T_HUGE_SECS => json!("u64_max_seconds"),
+        T_2_POW_64_NS => json!("2_pow_64_ns"),
+        n => json!(n),
+    }
+}
+
 pub fn poll_case_json(timeout_ns: u64, ops: &[Op]) -> Value {
-    json!({"kind": "observed_history", "timeout_ns": if timeout_ns == u64::MAX { json!("max") } else { json!(timeout_ns) }, "ops": ops_json(ops)})
+    json!({"kind": "observed_history", "timeout_ns": timeout_json(timeout_ns), "ops": ops_json(ops)})
 }
 
 pub fn timeout_from(v: &Value) -> Option<u64> {
-    if v.as_str() == Some("max") {
-        Some(u64::MAX)
-    } else {
-        json_u64(v)
+    match v.as_str() {
+        Some("max") => Some(T_MAX),
+        Some("u64_max_seconds") => Some(T_HUGE_SECS),
+        Some("2_pow_64_ns") => Some(T_2_POW_64_NS),
+        _ => json_u64(v),
     }
 }
 
@@ -215,7 +225,7 @@ fn observed_outcome(prop: &str, timeout_ns: u64, ops: &[Op]) -> Result<ROutcome,
     }
     let regions = (st.polls_early > 0) as u32 + (st.polls_exact > 0) as u32 + (st.polls_late > 0) as u32;
     let nontrivial = if prop == "C13" {
-        regions >= 2 || ((timeout_ns == 0 || timeout_ns == u64::MAX) && regions >= 1)
+        regions >= 2 || ((timeout_ns == 0 || is_infinite(timeout_ns)) && regions >= 1)
     } else {
         st.reports > 0 && (st.malformed > 0 || st.reset_while_pending)
     };
@@ -538,15 +548,15 @@ fn check_scenario_json(v: &Value) -> Option<CheckResult> {
 // C13 / C14 runs
 // ---------------------------------------------------------------------------------------------
 
-static ALL_TIMEOUT_IDX: [u8; 5] = [0, 1, 2, 3, 4];
-static C14_TIMEOUT_IDX: [u8; 4] = [0, 2, 2, 1];
+static ALL_TIMEOUT_IDX: [u8; 9] = [0, 1, 2, 3, 4, 5, 6, 2, 3];
+static C14_TIMEOUT_IDX: [u8; 7] = [0, 2, 2, 1, 3, 5, 6];
 
 fn observed_sub(ctx: &Ctx, prop: &'static str, name: &str, cases: u64, max_len: usize, timeouts: &'static [u8], weights: Option<fn() -> Weights>) -> Sub {
     let proto = Sub::new(
         name,
         &format!(
             "seeded random histories of feeds (full alphabet incl. malformed traffic, four carriers), polls, time steps {{0, 1 ns, T-1, T, T+1, 2T, random}}, resets on 1-16 channels; timeouts {:?} ns; every call judged by the history observer; epilogue: advance by T and poll every channel",
-            timeouts.iter().map(|i| if TIMEOUTS[*i as usize] == u64::MAX { "MAX".to_string() } else { TIMEOUTS[*i as usize].to_string() }).collect::<Vec<_>>()
+            timeouts.iter().map(|i| timeout_json(TIMEOUTS[*i as usize]).to_string()).collect::<Vec<_>>()
         ),
         if prop == "C13" {
             "non-trivial = polls with a pending MSB in at least two of the regions before / exactly at / after the deadline (one region for timeouts 0 and MAX); distinct by hash"
@@ -600,6 +610,7 @@ pub fn run_c13(ctx: &Ctx) -> Report {
         subs.push(bfs_polling(ctx, "C13", "bfs_timeout_0_frozen_clock", 11, 0, if ctx.reduced { &[5] } else { &[0, 1, 127] }));
     }
     subs.push(constructed_sub(ctx, "C13"));
+    subs.push(many_pending_sub(ctx, "C13"));
     // scenario families
     {
         let cases = ctx.pick(2_000u64, 150_000, 800_000);
@@ -660,6 +671,7 @@ pub fn run_c14(ctx: &Ctx) -> Report {
         subs.push(bfs_polling(ctx, "C14", "bfs_timeout_0_frozen_clock", 15, 0, if ctx.reduced { &[5] } else { &[0, 1, 127] }));
     }
     subs.push(constructed_sub(ctx, "C14"));
+    subs.push(many_pending_sub(ctx, "C14"));
     Report {
         subs,
         rule: "history-observer invariants after every call: channel, number/kind from the latest number bytes before the call, value from actually received bytes (inc/dec: current message; 7-bit: most recent unreported controller-6 byte; 14-bit: most recent controller-6 and controller-38 bytes incl. the current one), no duplicate 7-bit report, no 7-bit after 14-bit use, no loss (outstanding byte reported by the next contributing message or the first late poll), shape of two-message results".into(),
@@ -674,7 +686,7 @@ pub fn replay_polling(prop: &str, _sub: &str, case: &Value) -> Option<CheckResul
     match case["kind"].as_str()? {
         "observed_history" => {
             let t = timeout_from(&case["timeout_ns"])?;
-            if !HAVE_CLOCK && t != 0 && t != u64::MAX {
+            if !HAVE_CLOCK && t != 0 && !is_infinite(t) {
                 return None;
             }
             let ops = ops_from(&case["ops"])?;
@@ -753,5 +765,93 @@ fn constructed_sub(ctx: &Ctx, prop: &'static str) -> Sub {
         );
     });
     sub.samples.push(poll_case_json(timeout, &constructed_history(ch, 3, 117, 24, 129, true, timeout, Op::Poll(ch))));
+    sub
+}
+
+// ---------------------------------------------------------------------------------------------
+// many channels pending at once (counts / bitmaps of pending channels)
+// ---------------------------------------------------------------------------------------------
+
+fn many_pending_history(n: usize, seed: u64, timeout: u64) -> Vec<Op> {
+    // a seed-chosen set of n channels in a seed-chosen order
+    let mut chans: Vec<u8> = (0..16).collect();
+    let mut m = Mix(seed);
+    for i in (1..16).rev() {
+        chans.swap(i, m.below(i as u64 + 1) as usize);
+    }
+    chans.truncate(n);
+    let mut ops = Vec::new();
+    for &c in &chans {
+        let reg = m.below(2) == 1;
+        ops.push(Op::cc(c, if reg { 101 } else { 99 }, m.below(128) as u8));
+        ops.push(Op::cc(c, if reg { 100 } else { 98 }, m.below(128) as u8));
+    }
+    let variant = m.below(3);
+    for &c in &chans {
+        match variant {
+            0 => ops.push(Op::cc(c, 6, m.below(128) as u8)),
+            1 => {
+                // a complete 14-bit value, then a new pending MSB
+                ops.push(Op::cc(c, 6, m.below(128) as u8));
+                ops.push(Op::cc(c, 38, m.below(128) as u8));
+                ops.push(Op::cc(c, 6, m.below(128) as u8));
+            }
+            _ => {
+                ops.push(Op::cc(c, 38, m.below(128) as u8));
+                ops.push(Op::cc(c, 6, m.below(128) as u8));
+                ops.push(Op::cc(c, 6, m.below(128) as u8));
+            }
+        }
+    }
+    if HAVE_CLOCK {
+        // exactly at the deadline or strictly after it
+        ops.push(Op::Advance(timeout + m.below(2)));
+    }
+    // poll in another seed-chosen order, every channel twice
+    let mut order = chans.clone();
+    for i in (1..order.len()).rev() {
+        order.swap(i, m.below(i as u64 + 1) as usize);
+    }
+    for &c in &order {
+        ops.push(Op::Poll(c));
+    }
+    for &c in &order {
+        ops.push(Op::Poll(c));
+        ops.push(Op::cc(c, 6, m.below(128) as u8));
+    }
+    ops
+}
+
+fn many_pending_sub(ctx: &Ctx, prop: &'static str) -> Sub {
+    let timeouts: Vec<u64> = if HAVE_CLOCK { vec![0, 1_000] } else { vec![0] };
+    let reps = ctx.pick(3u64, 40, 400);
+    let mut sub = Sub::new(
+        "many_channels_pending",
+        &format!("n = 1..=16 seed-chosen channels all brought into the value-pending phase (3 ways), time advanced by the timeout, every channel polled twice in another order, then fed again; {} repetitions per n and timeout {:?}; judged by the history observer", reps, timeouts),
+        "non-trivial = every history (n >= 2 channels pending at once)",
+        false,
+    );
+    let seed = ctx.sub_seed("many_channels_pending");
+    let mut k = 0u64;
+    for &t in &timeouts {
+        for n in 1..=16usize {
+            for r in 0..reps {
+                k += 1;
+                let ops = many_pending_history(n, splitmix(seed ^ k), t);
+                let _ = r;
+                sub.eval(
+                    ops.len() as u128,
+                    || poll_case_json(t, &ops),
+                    || {
+                        let mut st = PollStats::default();
+                        run_observed(prop, t, &ops, true, &mut st)?;
+                        ensure!(st.poll_reports as usize >= n || st.aborted_other_property, "many_pending/too_few_poll_reports", "{} channels pending, {} poll reports", n, st.poll_reports);
+                        Ok(n >= 2)
+                    },
+                );
+            }
+        }
+    }
+    sub.samples.push(poll_case_json(0, &many_pending_history(16, 1, 0)));
     sub
 }
